@@ -24,7 +24,7 @@ CLAUSE_PROPERTY = {
 
 # the library's reading of a document is the reference parser's: text, attributes and special characters intact on reading
 # (C14), the same from str as from bytes / file (C18), and what a message's accessors expose is what the document names (C20)
-PARSE_CLAUSES = {"parse_faithful_ro": ("C14", "C18"), "parse_faithful_msg": ("C20", "C18")}
+PARSE_CLAUSES = {"parse_faithful_ro": ("C14", "C18"), "parse_faithful_msg": ("C20", "C18", "C04")}
 
 STORY = ["StorySend", "StoryAppend", "StoryDelete", "StoryInsert", "StoryMove", "StoryReplace",
          "EAStoryReplace", "EAStoryDelete", "EAStoryInsert", "EAStorySwap", "EAStoryMove"]
@@ -38,7 +38,7 @@ def tla_set(xs):
 
 
 def write_cfg(path, classes, bound, export=True, invariants=True):
-    b = dict(MaxStories=3, Layouts=["plain", "both", "nt1", "blank", "attr", "leadlast"], MaxSrc=2, MaxCarried=2,
+    b = dict(MaxStories=3, Layouts=["plain", "both", "nt1", "blank", "attr", "leadlast", "badtime"], MaxSrc=2, MaxCarried=2,
              MaxItems=3, ILayouts=["bare", "mixed", "itemfirst"])
     b.update(bound or {})
     lines = ["SPECIFICATION Spec", "CONSTANTS",
